@@ -176,6 +176,39 @@ Proof.
   - fold v in S. rewrite S. rewrite (V v R1), (V _ R2), (V _ R3). reflexivity.
 Qed.
 
+(* ------------------------------------------------------------------ kind -> value type *)
+(* integer kinds yield integers (int64 when signed, uint64 otherwise), decimal and custom kinds
+   float64 whatever the scale, flags bool *)
+Theorem value_type_spec (k : kind) (signed : bool) (n : Z) (scale offset : f64) (raw : Z) :
+  match decode_std k signed n scale offset raw with
+  | VFlag b => k = KFlag /\ b = decode_flag raw
+  | VInt z => k = KInteger /\ signed = true /\ z = decode_int true n scale offset raw
+  | VUint z => k = KInteger /\ signed = false /\ z = decode_int false n scale offset raw
+  | VFloat f => (k = KDecimal \/ k = KCustom) /\ f = decode_float signed n scale offset raw
+  end.
+Proof.
+  destruct k; cbn [decode_std]; try (split; [auto | reflexivity]).
+  destruct signed; repeat split; reflexivity.
+Qed.
+
+(* the whole observable of an integer-kind signal: type and value, under the side conditions of
+   the property (scale and offset are floats holding in-range integers, the result is
+   representable; unsigned: result non-negative) *)
+Theorem decode_std_integer_spec (signed : bool) (n : Z) (scale offset : f64) (raw sc off : Z) :
+  1 <= n <= 64 -> 0 <= raw < 2 ^ n ->
+  finite64 scale = true -> B2R64 scale = IZR sc ->
+  finite64 offset = true -> B2R64 offset = IZR off ->
+  (if signed then - two63 <= sc < two63 /\ - two63 <= off < two63 /\
+                  - two63 <= sext n raw * sc + off < two63
+   else - two63 < sc < two64 /\ - two63 < off < two64 /\ 0 <= raw * sc + off < two64) ->
+  decode_std KInteger signed n scale offset raw =
+  if signed then VInt (sext n raw * sc + off) else VUint (raw * sc + off).
+Proof.
+  intros Hn Hr Fs Es Fo Eo H.
+  pose proof (decode_int_spec signed n scale offset raw sc off Hn Hr Fs Es Fo Eo H) as D.
+  cbn [decode_std]. destruct signed; rewrite D; reflexivity.
+Qed.
+
 (* ------------------------------------------------------------------ ranges *)
 Theorem range_spec (signed : bool) (n : Z) : 1 <= n <= 64 ->
   int_range signed n =
